@@ -373,7 +373,7 @@ func genXCase(rt *rapid.T, cfg dsl.GenCfg, nmsgs int, vc dsl.ValCfg, suffixes bo
 	p := dsl.GenProgram(rt, cfg)
 	k := xCase{Prog: p, Langs: append([]string{}, xlang.Codecs...)}
 	root := p.RootPacket()
-	huge := rapid.IntRange(0, 3).Draw(rt, "huge_values") == 0
+	huge := !cfg.NoHuge && rapid.IntRange(0, 3).Draw(rt, "huge_values") == 0
 	if huge {
 		// the values need a home: a dynamic string and a list of one-byte numbers at the top level
 		// of the root packet, and prefix types that can count beyond 32767 (mostly the two-byte one)
